@@ -36,6 +36,10 @@ CLAIMS = {
    text="The broadcasting law is written once in TLA+ (BinOp over ElemOp) and TLC checks its shape/content/failure conditions for every (operator, left, right) state - 17 operators x scalar-scalar, list-scalar, scalar-list, list-list (equal and unequal lengths) over pools with NaN, infinities, signed zero, strings, booleans, null, nested lists; every state is replayed through the real evaluator against the exact-integer / IEEE-special-value semantics of NumOp; recorded random broadcasts (length 0..8, arbitrary doubles) are validated by TLC against per-element results from the real evaluator, plus algebraic identities.",
    note="Trusted: TLC, value renderer, identity number lift. Correct rounding of arithmetic on general doubles is delegated to hardware/libm and is decided only through exact-integer, special-value and algebraic cases.",
    technique="TLA+ spec (BlotsOps) model-checked with TLC; TLC-enumerated cases replayed into the real evaluator; recorded traces validated by TLC (Trace_C11)"),
+ "C13": dict(category="model_checking", design_ref="5 C13",
+   text="The reference evaluator BlotsEval.tla defines via / where / into and map / filter / every / some / reduce (callbacks get the element, plus the 0-based index iff they accept one more argument, in list order); TLC checks FormsAgree (result or failure alike), CallbackProtocol, EverySome and ReduceIsLeftFold for every (form, list, function) state - lambdas of arity 1, 2, 3, optional and rest parameters, a closure, self- and mutually recursive named functions, built-ins of several arity classes, a non-function, a failing and a non-boolean callback. Both equivalent programs of every state are run in the real evaluator with the call hook on: values are compared with the model and with each other, callback argument counts between the forms.",
+   note="Trusted: TLC, core-language renderer, hook H2 (FunctionDef::call, cfg blots_verif). The claim is stated for lists (x via f with a scalar x is f(x)). Errors compared as failure.",
+   technique="TLA+ reference evaluator (BlotsEval) model-checked with TLC; every state replayed as two equivalent programs into the real evaluator with call-hook events compared"),
  "C14": dict(category="model_checking", design_ref="5 C14",
    text="Each built-in has a definitional TLA+ counterpart (stable sort as insertion after all <= keys, unique = first of each .== class, chunk/flatten/zip/slice/range/keys/values/entries/group_by/split/join, indexing, spreading); TLC checks the property's laws on the definitions for every call over exhaustive small pools and emits each call with its expected result, which the harness replays into the real evaluator; random calls (lists to length 40, non-ASCII strings, negative/out-of-range indexes) recorded from the real evaluator are recomputed by TLC.",
    note="Trusted: TLC, value renderer, identity lift. Sort order asserted only for mutually comparable elements/keys (else permutation); slice/chunk/range laws for non-negative integer arguments.",
